@@ -213,6 +213,22 @@ func (s *Sched) registerLocked(gid uint64, base string, auto bool) *Task {
 	return t
 }
 
+// HoldsToken reports whether the calling goroutine is the task that holds the token.
+func (s *Sched) HoldsToken() (holder bool, isTask bool) {
+	gid := goid()
+	s.mu.Lock()
+	defer s.mu.Unlock()
+	t := s.byGid[gid]
+	return s.cur != nil && s.cur.gid == gid, t != nil
+}
+
+// AddHazard records a determinism hazard observed by the harness.
+func (s *Sched) AddHazard() {
+	s.mu.Lock()
+	s.Hazards++
+	s.mu.Unlock()
+}
+
 // Current returns the task of the calling goroutine (nil if it is not a task).
 func (s *Sched) Current() *Task {
 	gid := goid()
